@@ -64,6 +64,14 @@ def member_space(thorough):
         out.append([base(2, name=(b"n" * L) or b"x") if L else base(2, method=hx(b"-lhd-"), exts=[[2, hx(b"onlydir\xff")]])])
         if L and L < 200:
             out.append([base(1, name=b"d\\" + b"m" * L)])
+    # names, directory parts and link targets at and around the sizes of fixed formatting buffers
+    for L in (250, 251, 252, 253, 254, 255, 256, 257, 258, 259, 260, 511, 512, 513, 1023, 1024, 1025, 4000) + ((8191, 8192, 8193, 20000) if thorough else ()):
+        body = bytes(b"abcdefghijklmnopqrstuvwxyz"[i % 26] for i in range(L))
+        out.append([base(2, name=body)])
+        out.append([base(2, size=5, exts=[[2, hx(body + b"\xff")], [1, hx(b"n")]])])
+        out.append([base(2, size=5, exts=[[2, hx(body[:L // 2] + b"\xff" + body[L // 2:] + b"\xff")], [1, hx(body[:7])]])])
+        out.append([with_ext(base(2, name=b"lnk|" + body, method=hx(b"-lhd-"), size=0, packed=0), 0x50, struct.pack("<H", 0o120777))])
+        out.append([with_ext(base(2, name=body[:L - 4] + b"|tgt", method=hx(b"-lhd-"), size=0, packed=0), 0x50, struct.pack("<H", 0o120777))])
     # bytes that must be shown as '?': in the name, the path and the link target
     for b in (0x01, 0x1F, 0x7F, 0x80, 0xFF, 0x09, 0x0A, 0x1B):
         ch = bytes([b])
@@ -120,7 +128,7 @@ def run(ctx):
     ctx.assumptions += ["vlib/listrender.py reproduces all 720 listings recorded from the original Unix LHA tool (./check selftest); header fields come from the C reference parser/normaliser (ref_hdrjson), float32 ratio arithmetic is emulated exactly",
                         "totals are kept below 2^32 (the statement says 'sums'; a 32-bit total is not decidable from it); fixed 'now' through TEST_NOW_TIME, archive mtime set with utime"]
     return ctx.finish(
-        rule="single-member archives varying one column at a time over its boundary values (size x packed over {0,1,9999999,10^7,2^31,2^32-1} x levels; all 256 OS types; each permission bit x type nibble; all 128 OS-9 words; uid/gid boundaries; 15 Unix and 7 DOS timestamps around the six-month boundary, 0 and 2^32-1; name lengths 0..40 and 300; links and directories at every level; every method name) x {l, lv, v, vv}; "
+        rule="single-member archives varying one column at a time over its boundary values (size x packed over {0,1,9999999,10^7,2^31,2^32-1} x levels; all 256 OS types; each permission bit x type nibble; all 128 OS-9 words; uid/gid boundaries; 15 Unix and 7 DOS timestamps around the six-month boundary, 0 and 2^32-1; name lengths 0..40 and 300; names, directory parts and link targets of 250..260, 511..513, 1023..1025 and 4000 (thorough 8191..8193, 20000) bytes; links and directories at every level; every method name) x {l, lv, v, vv}; "
              "archives of 0/1/2/5 members x 4 modes x quiet {none,q0,q1,q2,q} x 9 wildcard lists (incl. backtracking patterns); a DST-bearing zone (Europe/London) for the time columns. Oracle: stdout equals the reference rendering byte for byte. non-trivial = cases with at least one selected row",
         replay_fn=lambda rep: cliprop.replay_case(rep))
 
